@@ -40,6 +40,32 @@ func drawSchedule(tape *sim.Tape) ([]uint64, int) {
 	return vals, stick
 }
 
+// drawIOChunks draws the buffer sizes the command's io.ReadAll / io.Copy will use (nil =
+// the standard library's own pattern). fine allows sizes down to 1 byte for small trees.
+func drawIOChunks(tape *sim.Tape, t *Tree, fine bool) []int {
+	total := 0
+	for _, e := range t.Entries {
+		total += len(e.Data)
+	}
+	mode := tape.Draw(4)
+	if mode < 2 {
+		return nil
+	}
+	n := 1 + tape.Draw(6)
+	out := make([]int, n)
+	for i := range out {
+		switch {
+		case mode == 3 && fine && total < 3000:
+			out[i] = 1 + tape.Draw(4)
+		case total < 20000 && fine:
+			out[i] = 1 + tape.Draw(64)
+		default:
+			out[i] = total/8 + 64 + tape.Draw(4096)
+		}
+	}
+	return out
+}
+
 func sameBytes(a, b []byte) bool { return bytes.Equal(a, b) }
 
 func readThrough(root, p string) ([]byte, bool) {
@@ -183,8 +209,12 @@ func C20Case(r *Runner, base string, tape *sim.Tape) *Outcome {
 	out := &Outcome{}
 	c := GenCase(tape, true)
 	sched, stick := drawSchedule(tape)
+	chunks := drawIOChunks(tape, c.Tree, false)
 	ex := c.Inv.Expect(c.Tree)
 	out.stat("shape_"+c.Shape, 1)
+	if chunks != nil {
+		out.stat("knob_io_buffer_sizes_chosen_by_plan", 1)
+	}
 	work, err := NewWork(base)
 	if err != nil {
 		out.Infra = err.Error()
@@ -200,7 +230,7 @@ func C20Case(r *Runner, base string, tape *sim.Tape) *Outcome {
 		out.Infra = "materialise: " + err.Error()
 		return out
 	}
-	plan := func() *Plan { return &Plan{Tape: sched, Stick: stick, CrashAt: -1, TornAt: -1} }
+	plan := func() *Plan { return &Plan{Tape: sched, Stick: stick, CrashAt: -1, TornAt: -1, Chunks: chunks} }
 	ff, err := r.Run(work, c.Inv, plan())
 	if err != nil {
 		out.Infra = err.Error()
